@@ -192,6 +192,14 @@ func (c *Check) writerLayout(f *Func) (prefixParam int, size int, fields []wfiel
 	}
 	b, ok := pa.Ret[0].Match("(append $C (spread (make []byte $N)))")
 	if !ok {
+		// prefix ‖ big-endian encoding of one value
+		if b2, ok2 := pa.Ret[0].Match("(append $C (spread (sdk.Uint64ToBigEndian $V)))"); ok2 && len(fields) == 0 {
+			b, ok = b2, true
+			size = 8
+			fields = append(fields, wfield{0, 8, b2["$V"]})
+		}
+	}
+	if !ok {
 		return 0, 0, nil, "result " + pa.Ret[0].String() + " is not prefix‖buffer"
 	}
 	pre := b["$C"]
@@ -330,10 +338,12 @@ func (c *Check) idLayout() {
 		}
 		// result 0: [0:plen]
 		r0 := okPath.Ret[0]
-		b0, m0 := r0.Match("(slice P0 #0 $H)")
+		b0, m0 := r0.Match("(slice P0 $L $H)")
 		h0 := -1
-		if m0 {
+		if m0 && (b0["$L"].IsAt("#0") || b0["$L"].IsAt("_")) {
 			h0, _ = litInt(b0["$H"])
+		} else {
+			m0 = false
 		}
 		c.req(m0 && h0 == plen, "C18.6", pr.split+"#prefix", s.Body.Pos(), fmt.Sprintf("prefix read as %s, written length %d", r0, plen))
 		for k, f := range fields {
